@@ -28,7 +28,7 @@ def slack(T, node, price, lo=-3, hi=3, ec=0, **kw):
 def fam_contract(T=3, thorough=False):
     ids = Ids()
     out = []
-    caps = [(-2, 2), (0, 2), (-2, 0), ([-1, -2, 0][:T] + [0] * (T - 3), [1, 0, 2][:T] + [1] * (T - 3)), (1, 2)]
+    caps = [(-2, 2), (0, 2), (-2, 0), (([-1, -2, 0] * T)[:T] + [0] * (T - 3), ([1, 0, 2] * T)[:T] + [1] * (T - 3)), (1, 2)]
     prices = [[1, 5, 2], [4, 1, 3]]
     for (lo, hi), ec, pr, dt in itertools.product(caps, (0, 1), prices, ([1] * T, [2] * T)):
         pr = (pr * T)[:T]
@@ -56,7 +56,7 @@ def fam_takes(T=3, thorough=False):
         out.append(F.make_cfg(ids(), T, [a, b], dt=dt))
     if thorough:
         for (s, e), sense in itertools.product(periods, ('min', 'max')):
-            a = F.contract(T, 'n1', -2, 2, [3, 1, 2][:T], ec=1, takes=[dict(s=s, e=e, vol=-2 if sense == 'min' else 2, sense=sense)],
+            a = F.contract(T, 'n1', -2, 2, ([3, 1, 2] * T)[:T], ec=1, takes=[dict(s=s, e=e, vol=-2 if sense == 'min' else 2, sense=sense)],
                            ws=1, we=T, force_contract=True)
             b = slack(T, 'n1', 2, lo=-4, hi=4)
             out.append(F.make_cfg(ids(), T, [a, b], dt=dt))
@@ -71,14 +71,14 @@ def fam_transport(T=3, thorough=False):
                                                               (0, [0, 2, 1]), [(1, T + 1), (2, T + 1), (0, T)]):
         costts_v = (costts * T)[:T] if isinstance(costts, list) else costts
         tr = F.transport(T, 'n1', 'n2', lo, hi, eff=eff, cost=cost, costts=costts_v, ws=win[0], we=win[1])
-        a = slack(T, 'n1', [1, 4, 2][:T], lo=-4, hi=4)
-        b = slack(T, 'n2', [3, 1, 5][:T], lo=-4, hi=4)
+        a = slack(T, 'n1', ([1, 4, 2] * T)[:T], lo=-4, hi=4)
+        b = slack(T, 'n2', ([3, 1, 5] * T)[:T], lo=-4, hi=4)
         out.append(F.make_cfg(ids(), T, [a, tr, b], dt=[2] * T if (cost and not isinstance(costts, list)) else None))
     if thorough:
         for sense, (s, e) in itertools.product(('min', 'max'), [(0, 3), (-1, 2), (2, 5)]):
             tr = F.transport(T, 'n1', 'n2', 0, 2, eff=(1, 2), cost=1, takes=[dict(s=s, e=e, vol=3, sense=sense)])
-            a = slack(T, 'n1', [1, 4, 2][:T], lo=-4, hi=4)
-            b = slack(T, 'n2', [3, 1, 5][:T], lo=-4, hi=4)
+            a = slack(T, 'n1', ([1, 4, 2] * T)[:T], lo=-4, hi=4)
+            b = slack(T, 'n2', ([3, 1, 5] * T)[:T], lo=-4, hi=4)
             out.append(F.make_cfg(ids(), T, [a, tr, b]))
     return out
 
@@ -88,8 +88,8 @@ def fam_transport_takes(T=3):
     out = []
     for sense, (s, e), eff in itertools.product(('min', 'max'), [(0, 3), (-1, 2), (2, 5), (1, 2)], [(1, 1), (1, 2)]):
         tr = F.transport(T, 'n1', 'n2', 0, 2, eff=eff, cost=1, takes=[dict(s=s, e=e, vol=3, sense=sense)])
-        a = slack(T, 'n1', [1, 4, 2][:T], lo=-4, hi=4)
-        b = slack(T, 'n2', [3, 1, 5][:T], lo=-4, hi=4)
+        a = slack(T, 'n1', ([1, 4, 2] * T)[:T], lo=-4, hi=4)
+        b = slack(T, 'n2', ([3, 1, 5] * T)[:T], lo=-4, hi=4)
         out.append(F.make_cfg(ids(), T, [a, tr, b]))
     return out
 
@@ -129,9 +129,9 @@ def fam_multi(T=3, thorough=False):
     for factors, (lo, hi), ec, takes in itertools.product([[(1, 1), (1, 1)], [(1, 1), (1, 2)], [(1, 1), (-1, 1)], [(2, 1), (1, 2)]],
                                                           [(0, 2), (-2, 2)], (0, 1), (None, ('min', 0, T, 2), ('max', -1, 2, 2))):
         tk = [dict(sense=takes[0], s=takes[1], e=takes[2], vol=takes[3])] if takes else []
-        m = F.multi(T, ['n1', 'n2'], factors, lo, hi, [2, 1, 3][:T], ec=ec, takes=tk)
-        a = slack(T, 'n1', [1, 4, 2][:T], lo=-4, hi=4)
-        b = slack(T, 'n2', [3, 1, 5][:T], lo=-4, hi=4)
+        m = F.multi(T, ['n1', 'n2'], factors, lo, hi, ([2, 1, 3] * T)[:T], ec=ec, takes=tk)
+        a = slack(T, 'n1', ([1, 4, 2] * T)[:T], lo=-4, hi=4)
+        b = slack(T, 'n2', ([3, 1, 5] * T)[:T], lo=-4, hi=4)
         out.append(F.make_cfg(ids(), T, [m, a, b]))
     return out
 
@@ -169,7 +169,7 @@ def fam_composite(T=3, thorough=False):
         assets = [F.contract(T, 'n1', -2, 2, pr, ec=ec),
                   F.storage(T, 'n1', 'n1' if cid % 2 else 'n2', ws=win[0], we=win[1], **st),
                   F.transport(T, 'n1', 'n2', 0, 1, eff=(1, 2) if cid % 3 == 0 else (1, 1), cost=1),
-                  F.contract(T, 'n2', [-1, -2, 0][:T] + [0] * (T - 3), [1, 0, 2][:T] + [1] * (T - 3), 3)]
+                  F.contract(T, 'n2', ([-1, -2, 0] * T)[:T] + [0] * (T - 3), ([1, 0, 2] * T)[:T] + [1] * (T - 3), 3)]
         out.append(F.make_cfg(cid, T, assets, dt=[2] * T if cid % 4 == 0 else None))
     return out
 
@@ -246,7 +246,7 @@ def fam_orders_companions(T=3):
     out = []
     H = T
     for orders, full, win in itertools.product([[(0, H, 1, 2)], [(0, 2, 1, 2), (1, 3, -1, 4)], [(2, H + 2, -2, 5), (0, 1, 1, 1)]], (False, True), [(2, 3), (1, 2), (3, T + 1)]):
-        assets = [slack(T, 'n1', [3, 1, 4][:T], lo=-3, hi=3, ec=1), F.contract(T, 'n1', -1, 1, [2, 5, 1][:T], ws=win[0], we=win[1]),
+        assets = [slack(T, 'n1', ([3, 1, 4] * T)[:T], lo=-3, hi=3, ec=1), F.contract(T, 'n1', -1, 1, ([2, 5, 1] * T)[:T], ws=win[0], we=win[1]),
                   F.orderbook(T, 'n1', orders, fullexec=full, fden=2)]
         out.append(F.make_cfg(ids(), T, assets))
     return out
@@ -259,10 +259,10 @@ def fam_orders_dt(T=3):
     disc, DEN = F.disc_pow2(T)
     for orders, full in itertools.product([[(0, 6, 1, 2)], [(2, 4, -1, 4), (0, 4, 1, 1)], [(-2, 2, 1, 1), (4, 8, -1, 5)]], (False, True)):
         ob = F.orderbook(T, 'n1', orders, fullexec=full, fden=2)
-        out.append(F.make_cfg(ids(), T, [ob, slack(T, 'n1', [3, 1, 4][:T], lo=-2, hi=2)], dt=[2] * T))
+        out.append(F.make_cfg(ids(), T, [ob, slack(T, 'n1', ([3, 1, 4] * T)[:T], lo=-2, hi=2)], dt=[2] * T))
     for orders, full in itertools.product([[(0, 3, 1, 2)], [(1, 2, -1, 4), (0, 2, 1, 1)], [(-1, 1, 1, 1), (2, 4, -1, 5)]], (False, True)):
         ob = F.orderbook(T, 'n1', orders, fullexec=full, fden=2, disc=disc)
-        out.append(F.make_cfg(ids(), T, [ob, F.contract(T, 'n1', -2, 2, [3, 1, 4][:T], disc=disc)], DEN=DEN, wacc=1.0, cal='y'))
+        out.append(F.make_cfg(ids(), T, [ob, F.contract(T, 'n1', -2, 2, ([3, 1, 4] * T)[:T], disc=disc)], DEN=DEN, wacc=1.0, cal='y'))
     return out
 
 
@@ -277,15 +277,15 @@ def fam_placement(T=3, thorough=False):
     ids = Ids()
     out = []
     for (pname, (ws, we)), kind in itertools.product(placements(T).items(), ('contract', 'transport', 'storage', 'multi')):
-        rest = [F.contract(T, 'n1', -1, 1, [1, 5, 2][:T], ec=1), slack(T, 'n1', 3, lo=-4, hi=4), slack(T, 'n2', [2, 4, 1][:T], lo=-4, hi=4)]
+        rest = [F.contract(T, 'n1', -1, 1, ([1, 5, 2] * T)[:T], ec=1), slack(T, 'n1', 3, lo=-4, hi=4), slack(T, 'n2', ([2, 4, 1] * T)[:T], lo=-4, hi=4)]
         if kind == 'contract':
-            x = F.contract(T, 'n1', -1, 2, [4, 1, 3][:T], ec=1, ws=ws, we=we)
+            x = F.contract(T, 'n1', -1, 2, ([4, 1, 3] * T)[:T], ec=1, ws=ws, we=we)
         elif kind == 'transport':
             x = F.transport(T, 'n1', 'n2', 0, 2, eff=(1, 2), cost=1, ws=ws, we=we)
         elif kind == 'storage':
             x = F.storage(T, 'n1', size=2, cin=1, cout=1, start=1, end=1, eff=(1, 2), ws=ws, we=we)
         else:
-            x = F.multi(T, ['n1', 'n2'], [(1, 1), (1, 2)], 0, 2, [2, 1, 3][:T], ws=ws, we=we)
+            x = F.multi(T, ['n1', 'n2'], [(1, 1), (1, 2)], 0, 2, ([2, 1, 3] * T)[:T], ws=ws, we=we)
         out.append(F.make_cfg(ids(), T, rest + [x], placement=pname, element=kind, element_index=3))
     return out
 
@@ -305,11 +305,11 @@ def fam_take_placement(T=3, thorough=True):
             continue
         tk = [dict(s=s, e=e, vol=4, sense=sense)]
         if kind == 'contract':
-            x = F.contract(T, 'n1', 0, 2, [4, 1, 3][:T] if sense == 'min' else [1, 1, 1][:T], takes=tk, force_contract=True, ws=ws, we=we)
-            rest = [slack(T, 'n1', [2, 3, 2][:T], lo=-4, hi=0)]
+            x = F.contract(T, 'n1', 0, 2, ([4, 1, 3] * T)[:T] if sense == 'min' else ([1, 1, 1] * T)[:T], takes=tk, force_contract=True, ws=ws, we=we)
+            rest = [slack(T, 'n1', ([2, 3, 2] * T)[:T], lo=-4, hi=0)]
         else:
             x = F.transport(T, 'n1', 'n2', 0, 2, cost=3 if sense == 'min' else 0, takes=tk, ws=ws, we=we)
-            rest = [slack(T, 'n1', [1, 1, 1][:T], lo=-4, hi=4), slack(T, 'n2', [2, 3, 2][:T] if sense == 'max' else [1, 1, 1], lo=-4, hi=4)]
+            rest = [slack(T, 'n1', ([1, 1, 1] * T)[:T], lo=-4, hi=4), slack(T, 'n2', ([2, 3, 2] * T)[:T] if sense == 'max' else [1, 1, 1], lo=-4, hi=4)]
         out.append(F.make_cfg(ids(), T, rest + [x], dt=dt, placement=pname, element='take_' + kind, element_index=len(rest)))
     return out
 
@@ -328,8 +328,8 @@ def fam_split(thorough=False):
     for T, size in itertools.product(Ts, (2, 3) if thorough else (2,)):
         sp = split_steps(T, size)
         iv = '%dh' % size
-        pr1 = [1, 5, 2, 6, 3, 4][:T]
-        pr2 = [4, 1, 3, 2, 5, 1][:T]
+        pr1 = ([1, 5, 2, 6, 3, 4] * T)[:T]
+        pr2 = ([4, 1, 3, 2, 5, 1] * T)[:T]
         # nothing couples the intervals
         for pr, ec in itertools.product((pr1, pr2), (0, 1)):
             a = [F.contract(T, 'n1', -1, 1, pr, ec=ec), slack(T, 'n1', 3, lo=-2, hi=2)]
@@ -353,7 +353,7 @@ def fam_split(thorough=False):
         out.append(F.make_cfg(ids(), T, a, split=sp, refines=False, interval=iv, coupling='storage_start_ne_end'))
         for sense, (s, e) in itertools.product(('min', 'max'), [(0, T), (1, T + 2), (-1, 3), (size, T + 1)]):   # last: later intervals only
             a = [F.contract(T, 'n1', 0, 2, pr2 if sense == 'min' else [1] * T, takes=[dict(s=s, e=e, vol=3, sense=sense)], force_contract=True),
-                 slack(T, 'n1', [2, 3, 2, 3, 2, 3][:T], lo=-4, hi=0)]
+                 slack(T, 'n1', ([2, 3, 2, 3, 2, 3] * T)[:T], lo=-4, hi=0)]
             out.append(F.make_cfg(ids(), T, a, split=sp, refines=False, interval=iv, coupling='takes'))
     return out
 
@@ -378,12 +378,12 @@ def fam_units_transport(T=3):
     ids = Ids()
     out = []
     for (lo, hi), dt in itertools.product([(1, 2), (-2, -1), (-2, 0), (0, 2)], ([2] * T, [1] * T)):
-        a = [slack(T, 'n1', [1, 4, 2][:T], lo=-5, hi=5), F.transport(T, 'n1', 'n2', lo, hi, eff=(1, 2), cost=1), slack(T, 'n2', [3, 1, 5][:T], lo=-5, hi=5)]
+        a = [slack(T, 'n1', ([1, 4, 2] * T)[:T], lo=-5, hi=5), F.transport(T, 'n1', 'n2', lo, hi, eff=(1, 2), cost=1), slack(T, 'n2', ([3, 1, 5] * T)[:T], lo=-5, hi=5)]
         out.append(F.make_cfg(ids(), T, a, dt=dt))
     for dt in ([24, 23, 24], [24, 25, 24]):
-        a = [slack(T, 'n1', [1, 4, 2][:T], lo=-2, hi=2, q=24), F.transport(T, 'n1', 'n2', -1, 1, cost=0, q=24), slack(T, 'n2', [3, 1, 5][:T], lo=-2, hi=2, q=24)]
+        a = [slack(T, 'n1', ([1, 4, 2] * T)[:T], lo=-2, hi=2, q=24), F.transport(T, 'n1', 'n2', -1, 1, cost=0, q=24), slack(T, 'n2', ([3, 1, 5] * T)[:T], lo=-2, hi=2, q=24)]
         out.append(F.make_cfg(ids(), T, a, dt=dt))
-        a = [slack(T, 'n1', [1, 4, 2][:T], lo=-2, hi=2, q=1), F.transport(T, 'n1', 'n2', 1, 1, cost=1, q=1), slack(T, 'n2', [3, 1, 5][:T], lo=-2, hi=2, q=1)]
+        a = [slack(T, 'n1', ([1, 4, 2] * T)[:T], lo=-2, hi=2, q=1), F.transport(T, 'n1', 'n2', 1, 1, cost=1, q=1), slack(T, 'n2', ([3, 1, 5] * T)[:T], lo=-2, hi=2, q=1)]
         out.append(F.make_cfg(ids(), T, a, dt=dt))
     return out
 
@@ -421,16 +421,16 @@ def _kinds_c13(T, extra, win=(1, None)):
     """one asset of every kind accepting freq / periodicity, with one and two variables per step"""
     ws, we = win
     we = we or T + 1
-    pr = [1, 3, 2, 6, 3, 5, 4, 2][:T]
+    pr = ([1, 3, 2, 6, 3, 5, 4, 2] * T)[:T]
     out = []
-    out.append(('contract1', [F.contract(T, 'n1', -2, 2, pr, ws=ws, we=we, **extra), slack(T, 'n1', [3, 1, 4, 2, 5, 1, 2, 3][:T], lo=-2, hi=2)]))
-    out.append(('contract2', [F.contract(T, 'n1', -1, 1, pr, ec=1, ws=ws, we=we, **extra), slack(T, 'n1', [3, 1, 4, 2, 5, 1, 2, 3][:T], lo=-2, hi=2, ec=0)]))
-    out.append(('transport', [slack(T, 'n1', [2, 2, 3, 3, 1, 1, 2, 2][:T], lo=-2, hi=2), F.transport(T, 'n1', 'n2', 0, 2, eff=(1, 2), cost=1, ws=ws, we=we, **extra),
-                              slack(T, 'n2', [3, 1, 6, 2, 5, 1, 2, 3][:T], lo=-2, hi=2)]))
+    out.append(('contract1', [F.contract(T, 'n1', -2, 2, pr, ws=ws, we=we, **extra), slack(T, 'n1', ([3, 1, 4, 2, 5, 1, 2, 3] * T)[:T], lo=-2, hi=2)]))
+    out.append(('contract2', [F.contract(T, 'n1', -1, 1, pr, ec=1, ws=ws, we=we, **extra), slack(T, 'n1', ([3, 1, 4, 2, 5, 1, 2, 3] * T)[:T], lo=-2, hi=2, ec=0)]))
+    out.append(('transport', [slack(T, 'n1', ([2, 2, 3, 3, 1, 1, 2, 2] * T)[:T], lo=-2, hi=2), F.transport(T, 'n1', 'n2', 0, 2, eff=(1, 2), cost=1, ws=ws, we=we, **extra),
+                              slack(T, 'n2', ([3, 1, 6, 2, 5, 1, 2, 3] * T)[:T], lo=-2, hi=2)]))
     out.append(('storage1', [slack(T, 'n1', pr, lo=-2, hi=2), F.storage(T, 'n1', size=4, cin=1, cout=1, ws=ws, we=we, **extra)]))
     out.append(('storage2', [slack(T, 'n1', pr, lo=-2, hi=2), F.storage(T, 'n1', size=4, cin=2, cout=1, eff=(1, 2), costin=1, ws=ws, we=we, **extra)]))
-    out.append(('multi', [F.multi(T, ['n1', 'n2'], [(1, 1), (1, 2)], 0, 2, pr, ws=ws, we=we, **extra), slack(T, 'n1', [3, 1, 4, 2, 5, 1, 2, 3][:T], lo=-2, hi=2),
-                          slack(T, 'n2', [1, 2, 1, 2, 1, 2, 1, 2][:T], lo=-2, hi=2)]))
+    out.append(('multi', [F.multi(T, ['n1', 'n2'], [(1, 1), (1, 2)], 0, 2, pr, ws=ws, we=we, **extra), slack(T, 'n1', ([3, 1, 4, 2, 5, 1, 2, 3] * T)[:T], lo=-2, hi=2),
+                          slack(T, 'n2', ([1, 2, 1, 2, 1, 2, 1, 2] * T)[:T], lo=-2, hi=2)]))
     return out
 
 
@@ -468,7 +468,7 @@ def fam_scaled(T=3, thorough=False):
     """assets AT a scale s (capacities = base x s / norm), fixed cost rate `fix` per norm scale and tick"""
     ids = Ids()
     out = []
-    pr = [1, 5, 2][:T]
+    pr = ([1, 5, 2] * T)[:T]
     # (window of the base asset, own window of the scaled asset): equal, wrapper narrower, base narrower, wrapper reaching beyond the horizon
     wins = [((1, T + 1), (1, T + 1)), ((2, T + 1), (2, T + 1)), ((1, T + 1), (2, T)), ((2, T + 1), (1, T + 1)), ((1, T + 1), (-1, T + 3))]
     for (s, norm, fix), (win, fwin) in itertools.product([(1, 1, 0), (2, 1, 1), (3, 2, 2), (1, 2, 1)], wins):
@@ -487,9 +487,9 @@ def fam_scaled(T=3, thorough=False):
                  ('storage1', F.storage(T, 'n1', size=cap(2), cin=cap(2), cout=cap(2), **sc)),
                  ('storage2', F.storage(T, 'n1', size=cap(4), cin=cap(2), cout=cap(2), start=cap(2), end=cap(2), eff=(1, 2), costin=1, inflow=cap(2) if win[0] == 1 else 0, **sc))]
         for name, x in kinds:
-            rest = [slack(T, 'n1', [3, 1, 4][:T], lo=-6, hi=6)]
+            rest = [slack(T, 'n1', ([3, 1, 4] * T)[:T], lo=-6, hi=6)]
             if name == 'transport':
-                rest.append(slack(T, 'n2', [2, 6, 1][:T], lo=-6, hi=6))
+                rest.append(slack(T, 'n2', ([2, 6, 1] * T)[:T], lo=-6, hi=6))
             out.append(F.make_cfg(ids(), T, rest + [x], variant=name, scale=(s, norm, fix)))
     return out
 
